@@ -79,6 +79,8 @@ SPEC_FILES = ["CactusRef.tla", "MC.tla"]
 
 
 def mc_cfg(nobj, ops, caps, variant, menu, invs, emit=0, simlen=0, view=True, constraint=None, extra=""):
+    if invs and "MC_Progress" not in invs:
+        invs = list(invs) + ["MC_Progress"]          # every call returns (no stuck library frame)
     s = "CONSTANTS\n  NObj = %d\n  Ops <- %s\n  Caps <- %s\n  Variant <- %s\n  DtorMenu <- %s\n" % (nobj, ops, caps, variant, menu)
     s += "  EmitCover = %d\n  SimLen = %d\n  EmitOut = %d\n  TrackStd = %d\n" % (
         emit, simlen, 1 if "EMITOUT" in extra else 0, 1 if "TRACKSTD" in extra else 0)
